@@ -37,6 +37,9 @@ pub fn cells(tier: Tier) -> Vec<CellPlan> {
     add(cells::same_frame3("C03"), 1, 1, 2, 1.0);
     add(cells::wrap("C03", 4), 0, 1, 3, 1.0);
     add(cells::reinsert("C03"), 1, 2, 4, 1.0);
+    add(cells::three_comps("C03", 2), 1, 1, 2, 1.0);
+    add(cells::vis_neighbour("C03", Vis::Whitelist), 1, 1, 2, 1.0);
+    add(cells::vis_neighbour("C03", Vis::Blacklist), 1, 1, 2, 1.0);
     v
 }
 
